@@ -1,11 +1,45 @@
-(* C02 — stream layering. Statements only; proofs in Proofs/ParserProofs.v (to be extended). *)
-From Coq Require Import String List ZArith.
-From Bkl Require Import Model.Value Model.Merge Model.Eval Model.Parser.
+(* C02 — stream layering targets the right documents and treats each independently.
+   Proofs in Proofs/ParserProofs.v. Documents live in a heap; [pdocs] is Parser.docs. *)
+From Coq Require Import String Ascii List ZArith.
+From Bkl Require Import Model.Value Model.Merge Model.Eval Model.Parser Proofs.ParserProofs.
 Import ListNotations.
 Local Open Scope string_scope.
 Local Open Scope list_scope.
 
-(* MergeDocument never reorders or drops the documents already stored *)
+(* which documents a layer document is merged into *)
+Theorem C02_targets : forall st pi,
+  fst (select st pi) =
+    let patch := get_doc (heap st) pi in
+    match match d_data patch with VMap m => lookup "$match" m | _ => None end with
+    | Some mv =>
+        if is_null mv then SelAppendNew                                   (* $match: null appends a new document *)
+        else let matching := filter (fun i => vmatch (d_data (get_doc (heap st) i)) mv) in
+             match matching (parents_in st pi) with                         (* matching parent documents, else ... *)
+             | [] => match matching (pdocs st) with [] => SelNoMatch | l => SelTargets l end   (* ... matching documents anywhere, else an error *)
+             | l => SelTargets l
+             end
+    | None => match parents_in st pi with [] => SelAppendSelf | l => SelTargets l end   (* all documents of the parent layer *)
+    end.
+Proof.
+  intros st pi. unfold select. cbv zeta. destruct (d_data (get_doc (heap st) pi)) as [| | | | | |m]; try (destruct (parents_in st pi); reflexivity).
+  destruct (lookup "$match" m) as [mv|]; [|destruct (parents_in st pi); reflexivity].
+  destruct (is_null mv); [reflexivity|].
+  destruct (filter _ (parents_in st pi)); [destruct (filter _ (pdocs st)); reflexivity|reflexivity].
+Qed.
+Print Assumptions C02_targets.
+
+(* every selected document receives the result it would receive if it were the only one: the merge of its own
+   data with the layer's data; every other document is left untouched; the layer's own data is not consumed *)
+Theorem C02_independent : forall targets h pi h',
+  NoDup targets -> ~ In pi targets -> (forall t, In t targets -> t < List.length h) -> pi < List.length h ->
+  merge_into h targets pi = (h', Ok tt) ->
+  List.length h' = List.length h /\
+  (forall q, In q targets -> merge' (d_data (get_doc h q)) (d_data (get_doc h pi)) = Ok (d_data (get_doc h' q))) /\
+  (forall q, ~ In q targets -> d_data (get_doc h' q) = d_data (get_doc h q)).
+Proof. exact merge_into_spec. Qed.
+Print Assumptions C02_independent.
+
+(* document order is preserved: MergeDocument only ever appends *)
 Theorem C02_order_preserved : forall st pi st' r, merge_document st pi = (st', r) ->
   exists tail, pdocs st' = pdocs st ++ tail.
 Proof.
@@ -17,3 +51,12 @@ Proof.
   - inversion H; subst; cbn. exists []. now rewrite app_nil_r.
 Qed.
 Print Assumptions C02_order_preserved.
+
+(* non-vacuity: the two inputs quoted in the property, on the model *)
+Example C02_two_targets :
+  let ops := [ONew "b0" [] (VMap [("a", VInt 1)]); OMerge 0; ONew "b1" [] (VMap [("a", VInt 2)]); OMerge 1;
+              ONew "l1" [0; 1] (VMap [("a", VMap [("x", VInt 1)])]); OMerge 2;
+              ONew "l2" [2] (VMap [("a", VMap [("y", VInt 2)])]); OMerge 3] in
+  forall o, documents (fst (run o init ops)) =
+    [VMap [("a", VMap [("x", VInt 1); ("y", VInt 2)])]; VMap [("a", VMap [("x", VInt 1); ("y", VInt 2)])]].
+Proof. intro o. reflexivity. Qed.
